@@ -275,7 +275,9 @@ func (p *Parser) parseArg(info *pOpcodeInfo, curObj *Object, argType pArgType) (
 		return p.parseSimpleArg(argType)
 	case pArgTypeByteList:
 		argObj := p.objTree.newObject(pOpIntByteList, p.tableHandle)
-		p.parseByteList(argObj, p.r.pkgEnd-p.r.Offset())
+		if p.parseByteList(argObj, p.r.pkgEnd-p.r.Offset()) != parseResultOk {
+			return nil, parseResultFailed
+		}
 		return argObj, parseResultOk
 	case pArgTypePkgLen:
 		origOffset := p.r.Offset()
@@ -659,7 +661,10 @@ func (p *Parser) parseFieldElements(curObj *Object) parseResult {
 
 				connArg = p.objTree.newObject(pOpIntByteList, p.tableHandle)
 				connArg.amlOffset = origOffset
-				p.parseByteList(connArg, uint32(dataLen))
+				if p.parseByteList(connArg, uint32(dataLen)) != parseResultOk {
+					kfmt.Fprintf(p.errWriter, "[table: %s, offset: 0x%x] Connection buffer extends past the end of its package\n", p.tableName, p.r.Offset())
+					return parseResultFailed
+				}
 
 				// Restore previous pkg end and jump to end of buffer package
 				_ = p.r.SetPkgEnd(origPkgEnd)
@@ -721,7 +726,14 @@ func (p *Parser) parseFieldElements(curObj *Object) parseResult {
 	return parseResultShortCircuit
 }
 
-func (p *Parser) parseByteList(obj *Object, dataLen uint32) {
+func (p *Parser) parseByteList(obj *Object, dataLen uint32) parseResult {
+	// The list must lie inside the current package (and thus inside the
+	// table); dataLen comes from the AML stream or from a pkgEnd - offset
+	// subtraction that wraps around if the offset is already past pkgEnd.
+	if offset := p.r.Offset(); offset > p.r.pkgEnd || dataLen > p.r.pkgEnd-offset {
+		return parseResultFailed
+	}
+
 	obj.opcode = pOpIntByteList
 	obj.infoIndex = pOpcodeTableIndex(obj.opcode, true)
 	obj.value = *(*[]byte)(unsafe.Pointer(&reflect.SliceHeader{
@@ -731,6 +743,7 @@ func (p *Parser) parseByteList(obj *Object, dataLen uint32) {
 	}))
 
 	p.r.SetOffset(p.r.Offset() + dataLen)
+	return parseResultOk
 }
 
 // parsePkgLength parses a PkgLength value from the AML bytestream.
